@@ -43,6 +43,8 @@ const SHAPES = {
   // further positional arguments stay where they are
   threeIdent: { args: (s) => `${s}, uName, 'third'`, user: ['name'], third: true },
   threeObj: { args: (s) => `${s}, { inheritAttrs: false }, 'third', 4`, user: [], third: true },
+  threeLitAll: { args: (s) => `${s}, { name: 'Own', props: uProps, emits: uEmits }, 'third'`, user: ['name', 'props', 'emits'], third: true },
+  threeLitName: { args: (s) => `${s}, { 'name': 'Own' }, uProps, 4`, user: ['name'], third: true },
   threeCall: { args: (s) => `${s}, mkOpts(), uProps`, user: ['props', 'emits', 'name'], third: true },
   spreadArgs: { args: () => '...uArgs', user: '*', spreadArgs: true },
   spreadRest: { args: (s) => `${s}, ...uRest`, user: '*', spreadArgs: true },
@@ -82,6 +84,11 @@ const PROV = {
   namespace: { pre: "import * as Vue from 'vue';\nimport { SetupContext } from 'vue';", callee: 'Vue.defineComponent', vue: false },
   local: { pre: "import { SetupContext } from 'vue';\nfunction defineComponent(...a) { __out.local.push(a); return a; }", callee: 'defineComponent', vue: false },
   localConst: { pre: "import { SetupContext } from 'vue';\nconst defineComponent = (...a) => { __out.local.push(a); return a; };", callee: 'defineComponent', vue: false },
+  // packages whose names merely begin with `vue`
+  vueDemi: { pre: "import { defineComponent } from 'vue-demi';\nimport { SetupContext } from 'vue';", callee: 'defineComponent', vue: false },
+  vuePrefix: { pre: "import { defineComponent } from 'vuetify';\nimport type { SetupContext } from 'vue';", callee: 'defineComponent', vue: false },
+  vueRelative: { pre: "import { defineComponent } from './vue';\nimport { SetupContext } from 'vue';", callee: 'defineComponent', vue: false },
+  vueScoped: { pre: "import { defineComponent } from '@vue/composition-api';\nimport { SetupContext } from 'vue';", callee: 'defineComponent', vue: false },
   otherModule: { pre: "import { defineComponent } from 'other-lib';\nimport { SetupContext } from 'vue';", callee: 'defineComponent', vue: false },
   shadowParam: { pre: "import { defineComponent, SetupContext } from 'vue';", callee: 'defineComponent', vue: false, wrap: (body) => `function scope(defineComponent) {\n${body}\n}\nscope((...a) => { __out.local.push(a); return a; });` },
   shadowConst: { pre: "import { defineComponent, SetupContext } from 'vue';", callee: 'defineComponent', vue: false, wrap: (body) => `{\n  const defineComponent = (...a) => { __out.local.push(a); return a; };\n${body}\n}` },
@@ -113,7 +120,8 @@ function mkEnv() {
     uArgs: [uSetup, { name: 'FromArgs', props: uProps }], uRest: [{ name: 'FromRest', emits: uEmits }], uSetup,
   };
   env.names = names;
-  env.modules = { 'other-lib': { defineComponent: (...a) => a } };
+  const foreign = { defineComponent: (...a) => a };
+  env.modules = { 'other-lib': foreign, 'vue-demi': foreign, vuetify: foreign, './vue': foreign, '@vue/composition-api': foreign };
   return env;
 }
 
